@@ -3,8 +3,9 @@
 /// two generator steps in sequence
 pub proof fn lemma_gen_post_trans(a: Compiler, b: Compiler, c: Compiler, ok1: bool, ok2: bool)
     requires gen_post(a, b, ok1), gen_post(b, c, ok2),
-             // the second step either emitted something or left the remembered last instruction alone
-             c.instructions@.len() > b.instructions@.len() || c.last_instruction == b.last_instruction,
+             // the second step either emitted something, or left the remembered last instruction alone, or at least
+             // does not end in a Pop that the peephole could still remove
+             c.instructions@.len() > b.instructions@.len() || c.last_instruction == b.last_instruction || c.last_instruction != Some(OpCode::Pop),
     ensures gen_post(a, c, ok1 && ok2)
 {
     let n = a.loop_contexts@.len() as int;
